@@ -137,6 +137,12 @@ class Validator(object):
             valid_children = {c[0] for c in children_refs}
             return valid_children, children_refs
 
+        def _is_additional_field(el, name):
+            try:
+                return int(name[4:]) > el._last_allowed_child_index
+            except (TypeError, ValueError):
+                return False
+
         def _get_child_reference_info(ref):
             child_name, cardinality = ref[0], ref[2]
             return child_name, cardinality
@@ -152,6 +158,10 @@ class Validator(object):
             if ref[0] in ('sequence', 'choice'):
                 element_children = {c.name for c in el.children if not c.is_z_element()}
                 valid_children, valid_children_refs = _get_valid_children_info(ref)
+                if el.classname == 'Segment' and el.allow_infinite_children:
+                    # a segment whose last field is of type varies takes fields beyond the defined ones
+                    element_children = {n for n in element_children
+                                        if n in valid_children or not _is_additional_field(el, n)}
 
                 # check that the children are all allowed children
                 if not element_children <= valid_children:
